@@ -18,6 +18,7 @@ Direct oracle (no model): the property statement on those snapshots + the behavi
 import logging
 
 from harness.core import Result
+from harness.c10_util import Unobservable
 
 PROPERTY = 'C10'
 THEOREM_FILES = ['Props/C10.v']
@@ -330,10 +331,9 @@ def oracle(run):
                                                          ('creg', 'sreg', 'out', 'in', 'h2', 'pending_tasks', 'held')}}})
     a = getattr(run, 'agg', None) or {}
     agg_fail = []
-    if a.get('finished_tasks_after'):
-        agg_fail.append(('_tasks', 'finished handler tasks survive a collect'))
-    if a.get('finished_cancelled_after'):
-        agg_fail.append(('_cancelled', 'finished cancelled handler tasks survive a collect'))
+    for name, k in sorted((a.get('finished_after') or {}).items()):
+        agg_fail.append(('handler-task-container', 'finished handler tasks survive a collect (%d in one container)' % k))
+        break
     if 'finished_before' in a and a['finished_before'] > 20:
         # pruning runs on every 10th accept: at most 9 finished tasks since the last collect, each possibly
         # in both containers (Handler.close does not pop)
@@ -366,6 +366,9 @@ def evaluate(ctx, res, cases):
     for case in cases:
         try:
             runs.append(run_one(case))
+        except Unobservable as e:   # an object could not be located by role on this tree: counted, not compared
+            runs.append(None)
+            res.count('unobservable-scenario:' + str(e))
         except Exception as e:      # the harness itself failed on this case: the tie is broken, not hidden
             runs.append(None)
             res.disagreements.append({'case': case, 'model': None, 'impl': 'harness raised %r' % (e,)})
@@ -395,6 +398,8 @@ def evaluate(ctx, res, cases):
         res.count('final:' + ('clean' if not (final['creg'] or final['out'] or final['in'] or final['sreg'] or
                                                final['pending_tasks']) else 'not-clean'))
         res.count('probe:' + run.probe)
+        for u in sorted(set(run.unobservable)):
+            res.count('unobservable:' + u)
         if case.get('bulk'):
             res.count('bulk-case')
             res.count('bulk:handler-tasks-accepted', (run.agg or {}).get('accepted', 0))
